@@ -11,7 +11,7 @@ from . import common
 ID = "C04"
 NEEDS_MODEL = True
 LEVEL = "exploration"
-N = {"quick": 960, "thorough": 10000}
+N = {"quick": 960, "thorough": 30000}
 STRATA = ["S1", "S1", "S2", "S2", "S3", "S1", "S2", "S3", "S4", "S5", "S6", "S8", "S6", "S8"]
 
 
